@@ -85,8 +85,9 @@ Section CoreRun.
     - destruct (none_like _); reflexivity.
     - destruct (is_blank_text (tally_text l i)); cbn [fst x with_mx]; [reflexivity|].
       apply dget_dset_other_dict; intros E0; apply Hw; rewrite E0; reflexivity.
-    - destruct (Assign.do_assignment _ _ _ _) as [[[|] ?]|]; cbn [fst x with_mx]; try reflexivity.
-      apply dget_dset_other_dict; intros E0; apply Hw; rewrite E0; reflexivity.
+    - assert (Hn : nm <> d) by (intros E0; apply Hw; rewrite E0; reflexivity).
+      destruct (Assign.do_assignment _ _ _ _) as [[[|] ?]|]; cbn [fst x with_mx];
+        rewrite ?dget_dset_other_dict, dget_ensure_other_dict by exact Hn; reflexivity.
     - destruct (Assign.do_assignment _ _ _ _) as [[[|] ?]|]; reflexivity.
   Qed.
 
@@ -207,7 +208,7 @@ Section CoreRun.
     - destruct (dget (x mx s) nm (hdr_key l i)) as [[z'|z'|t|]|]; reflexivity.
     - destruct (none_like _); cbn [fst x with_mx vars]; apply lookup_update_other; exact Hw.
     - destruct (is_blank_text (tally_text l i)); reflexivity.
-    - destruct (Assign.do_assignment _ _ _ _) as [[[|] ?]|]; reflexivity.
+    - destruct (Assign.do_assignment _ _ _ _) as [[[|] ?]|]; cbn [fst x with_mx dset vars]; rewrite ensure_key_vars; reflexivity.
     - destruct (Assign.do_assignment _ _ _ _) as [[[|] ?]|]; cbn [fst x with_mx vars]; try reflexivity. apply lookup_update_other. exact Hw.
   Qed.
 
